@@ -294,6 +294,82 @@ func genStreamCase(r *Rng, maxLen, maxOps int) streamCase {
 	return sc
 }
 
+// genStreamTokens drives the lexer the way a tokenizer does (Peek every byte, Move, Shift) over a longer stream,
+// with a free discipline that changes in phases: free at once for a while, hold tokens unfreed across refills,
+// release everything outstanding, ... Needed to expose accounting errors of the pool that only show after a
+// particular order of frees and refills.
+func genStreamTokens(r *Rng, maxLen int) streamCase {
+	sc := streamCase{}
+	sc.size = int64([]int{0, 1, 3, 4, 8, 16, 32, 64}[r.Intn(8)])
+	n := 20 + r.Intn(maxLen)
+	data := make([]byte, n)
+	for i := range data {
+		data[i] = byte('!' + (i*7+i/13)%90)
+	}
+	chunk := []int{1, 2, 3, 4, 7, 16, 400}[r.Intn(7)]
+	for rest := data; len(rest) > 0; {
+		k := chunk
+		if r.Chance(1, 4) {
+			k = 1 + r.Intn(9)
+		}
+		if k > len(rest) {
+			k = len(rest)
+		}
+		ev := sevent{rest[:k], 0}
+		rest = rest[k:]
+		if len(rest) == 0 && r.Bool() {
+			ev.err = 1
+		}
+		sc.events = append(sc.events, ev)
+	}
+	pos, shifted, freed := 0, 0, 0
+	phase := r.Intn(3) // 0 free at once, 1 hold, 2 delayed partial
+	left := 1 + r.Intn(8)
+	for pos < n {
+		tl := 1 + r.Intn(9)
+		if r.Chance(1, 10) {
+			tl = 10 + r.Intn(30)
+		}
+		for j := 0; j < tl && pos < n; j++ {
+			sc.ops = append(sc.ops, sopPeek, 0, sopMove, 1)
+			pos++
+		}
+		if r.Chance(1, 6) {
+			sc.ops = append(sc.ops, sopLexeme, 0)
+		}
+		if r.Chance(1, 8) {
+			sc.ops = append(sc.ops, sopSkip, 0)
+		} else {
+			sc.ops = append(sc.ops, sopShift, 0)
+		}
+		shifted = pos
+		if r.Chance(2, 3) {
+			sc.ops = append(sc.ops, sopShiftLen, 0)
+		}
+		switch phase {
+		case 0:
+			sc.ops = append(sc.ops, sopFree, int64(shifted-freed))
+			freed = shifted
+		case 2:
+			if k := r.Intn(shifted - freed + 1); k > 0 {
+				sc.ops = append(sc.ops, sopFree, int64(k))
+				freed += k
+			}
+		}
+		left--
+		if left == 0 {
+			phase = r.Intn(3)
+			left = 1 + r.Intn(10)
+			if r.Chance(1, 3) {
+				sc.ops = append(sc.ops, sopFree, int64(shifted-freed)) // release everything outstanding
+				freed = shifted
+			}
+		}
+	}
+	sc.ops = append(sc.ops, sopPeek, 0, sopErr, 0)
+	return sc
+}
+
 func shrinkStream(c Case) []Case {
 	sc := decodeStreamCase(c.Args)
 	var out []Case
@@ -321,6 +397,10 @@ var streamModel = &Model{
 			sc := genStreamCase(r, 1+i%48, 1+i%40)
 			emit(Case{Fn: "stream", Args: sc.encode(), Note: sc.describe()})
 		}
+		for i := 0; i < n/8; i++ {
+			sc := genStreamTokens(r, 40+i%360)
+			emit(Case{Fn: "stream", Args: sc.encode(), Note: sc.describe()})
+		}
 	},
 	Impl:   streamImpl,
 	Shrink: shrinkStream,
@@ -342,6 +422,9 @@ func c13Oracle(r *Rng, tier string, rep *Report) {
 	}
 	for it := 0; it < n; it++ {
 		sc := genStreamCase(r, 1+it%64, 1+it%48)
+		if it%4 == 3 {
+			sc = genStreamTokens(r, 40+it%360)
+		}
 		key := fmtInts(sc.encode())
 		// the completely read input (up to a reader failure)
 		var data []byte
